@@ -13,6 +13,7 @@ CONSTANTS
   WithErrors = FALSE
   WithIdle = FALSE
   WithSleep = FALSE
+  WithWalFaults = FALSE
   WithStop = TRUE
   TimeoutTypes = {}
   KeepLog = FALSE
